@@ -37,11 +37,13 @@ from deepali.data import FlowField, Image, ImageBatch
 from deepali.utils.imageio import read_image, write_image
 from deepali.utils.imageio.meta import read_meta_image
 
-SUFFIXES = [".mha", ".mhd", ".nii", ".nii.gz", ".hdr", ".img", ".nrrd", ".nhdr"]
+SUFFIXES = [".mha", ".mhd", ".nii", ".nii.gz", ".hdr", ".img", ".img.gz", ".nrrd", ".nhdr", ".mnc", ".vtk", ".hdf5"]
+# what a format can represent (probed with this SimpleITK build): payloads are adapted, not the oracle
+CAPS = {".vtk": {"oriented": False}, ".hdf5": {"max_channels": 1}}
 STEMS = ["s0", "s1", "s2"]
 DTYPES = ["uint8", "int16", "int32", "float32", "float64"]
 NATIVE_BYTES = (".mha",)
-NIFTI_FAMILY = [".nii", ".nii.gz", ".hdr", ".img"]
+NIFTI_FAMILY = [".nii", ".nii.gz", ".hdr", ".img", ".img.gz"]
 
 
 def suffix_of(name: str) -> str:
@@ -362,6 +364,7 @@ SIBLINGS = {
     ".mhd": [".raw", ".zraw"],
     ".hdr": [".img"],
     ".img": [".hdr"],
+    ".img.gz": [".hdr.gz"],
     ".nhdr": [".raw", ".raw.gz"],
 }
 
@@ -401,6 +404,11 @@ class _Ops:
             expected = cube_vec_to_world(flow_t, grid, axes).numpy().astype(np.dtype(desc["dtype"]))
             entry = "FlowField.write"
             call = lambda: obj.write(arg, compress=compress)
+            if op.get("entry") == "sitk_bridge":
+                # deepali's tensor -> SimpleITK conversion, SimpleITK's own writer
+                entry = "FlowField.sitk+WriteImage"
+                arg, cwd = self.full(name), None
+                call = lambda: sitk.WriteImage(obj.sitk(), arg, compress)
         else:
             arr = make_array(desc)
             expected = arr
@@ -411,6 +419,11 @@ class _Ops:
             elif entry == "batch_item":
                 batch = ImageBatch(data.unsqueeze(0), grid)
                 call = lambda: batch[0].write(arg, compress=compress)
+            elif entry == "sitk_bridge":
+                entry = "Image.sitk+WriteImage"
+                img = Image(data, grid)
+                arg, cwd = self.full(name), None
+                call = lambda: sitk.WriteImage(img.sitk(), arg, compress)
             else:
                 img = Image(data, grid)
                 call = lambda: img.write(arg, compress=compress)
@@ -508,6 +521,14 @@ class _Ops:
             return StepResult("skipped", "absent")
         if entry in ("meta_bytes", "meta_reader") and suffix_of(name) != ".mha":
             entry = "read_image"
+        if judged and entry in ("from_sitk", "FlowField.from_sitk", "Grid.from_file") and suffix_of(name) in NIFTI_FAMILY:
+            stem = self.stem_of(name)
+            others = {stem + s_ for s_ in NIFTI_FAMILY + [".hdr.gz", ".img.gz"]} - set(rec.files)
+            if any(os.path.exists(self.full(o)) for o in others):
+                # niftilib (inside ITK) may open another file of the same stem (second-party quirk, see op_sread):
+                # use deepali's own reader instead
+                self.c["probes"]["sitk_read_ambiguous_nifti_stem"] += 1
+                entry = "FlowField.read" if entry == "FlowField.from_sitk" else "Image.read"
         if not judged:
             # A torn or half-deleted file carries no verdict (the property promises nothing), and reading one is
             # not safe inside the simulator process: deepali's .mha reader (np.frombuffer over BytesIO.getbuffer())
@@ -525,6 +546,12 @@ class _Ops:
                 return None, Grid.from_file(arg)
             if entry == "FlowField.read":
                 f = FlowField.read(arg)
+                return f, f.grid()
+            if entry == "from_sitk":
+                im = Image.from_sitk(sitk.ReadImage(p))
+                return im.tensor(), im.grid()
+            if entry == "FlowField.from_sitk":
+                f = FlowField.from_sitk(sitk.ReadImage(p))
                 return f, f.grid()
             if entry == "meta_bytes":
                 with open(p, "rb") as fh:
@@ -544,7 +571,7 @@ class _Ops:
         data, grid = r
         out = StepResult("ok", "")
         hdr = header_of(grid)
-        if entry == "FlowField.read":
+        if entry in ("FlowField.read", "FlowField.from_sitk"):
             if rec.kind != "flow":
                 # any image with C == D can be read as a flow field: compare the raw components
                 data_arr = data.tensor().numpy()
@@ -562,7 +589,7 @@ class _Ops:
             out.violations += self.compare(name, rec, data.numpy(), hdr, "deepali", entry)
         if data is None:
             out.digest = "grid"
-        elif entry == "FlowField.read":
+        elif entry in ("FlowField.read", "FlowField.from_sitk"):
             out.digest = digest_bytes(data.tensor().numpy().tobytes())
         else:
             out.digest = digest_bytes(data.numpy().tobytes())
@@ -730,13 +757,24 @@ class _Gen:
         if kind in ("dwrite", "swrite"):
             pk = rng.weighted([("image", 3), ("flow", 1)])
             name = force_name or self.pick_name(rng, collide=rng.chance(0.5))
-            op = {"op": kind, "name": name, "kind": pk, "desc": self.payload_desc(rng, pk), "compress": bool(rng.chance(0.5))}
+            caps = CAPS.get(suffix_of(name), {})
+            if caps.get("max_channels") == 1:
+                pk = "image"
+            desc = self.payload_desc(rng, pk)
+            if caps.get("max_channels") == 1:
+                desc["C"] = 1
+            if caps.get("oriented") is False:
+                desc["grid"]["angles"] = [0.0] * len(desc["grid"]["angles"])
+                desc["grid"]["flips"] = [False] * len(desc["grid"]["flips"])
+            op = {"op": kind, "name": name, "kind": pk, "desc": desc, "compress": bool(rng.chance(0.5))}
             if kind == "dwrite":
                 op["form"] = rng.weighted([("str", 4), ("path", 2), ("uri", 1), ("rel", 1)])
                 if pk == "flow":
                     op["axes"] = rng.choice(["world", "grid", "cube", "cube_corners"])
+                    if rng.chance(0.15):
+                        op["entry"] = "sitk_bridge"
                 else:
-                    op["entry"] = rng.weighted([("Image.write", 3), ("write_image", 2), ("batch_item", 1)])
+                    op["entry"] = rng.weighted([("Image.write", 3), ("write_image", 2), ("batch_item", 1), ("sitk_bridge", 1)])
                 op["layout"] = rng.weighted([("contig", 5)] + [(l, 1) for l in LAYOUTS[1:]])
                 if sc["faults"]["failed_write"] and suffix_of(name) in NATIVE_BYTES and rng.chance(0.25):
                     op["fault"] = {"frac": rng.round(0.0, 1.0, 2)}
@@ -754,12 +792,16 @@ class _Gen:
             if kind == "dread":
                 rec = self.rec.get(name)
                 entries = [("Image.read", 4), ("read_image", 2), ("Grid.from_file", 1)]
+                entries.append(("from_sitk", 1))
                 if rec is not None and (rec.kind == "flow" or rec.desc.get("C") == rec.desc.get("D")):
                     entries.append(("FlowField.read", 5 if rec.kind == "flow" else 1))
+                    entries.append(("FlowField.from_sitk", 1.5 if rec.kind == "flow" else 0.5))
                 if suffix_of(name) == ".mha":
                     entries += [("meta_bytes", 1), ("meta_reader", 2 if sc["faults"]["short_io"] else 0.5)]
                 op["entry"] = rng.weighted(entries)
                 op["form"] = rng.weighted([("str", 4), ("path", 2), ("uri", 0 if op["entry"] == "Grid.from_file" else 1), ("rel", 1)])
+                if op["entry"] in ("from_sitk", "FlowField.from_sitk"):
+                    op["form"] = "str"
                 if op["entry"] == "meta_reader":
                     op["chunk"] = rng.choice([1, 3, 7, 64]) if sc["faults"]["short_io"] else 1 << 20
             return op
@@ -809,11 +851,11 @@ class IoEngine:
             o = dict(op)
             o["layout"] = "contig"
             out.append(o)
-        if op.get("entry") in ("write_image", "batch_item"):
+        if op.get("entry") in ("write_image", "batch_item", "sitk_bridge"):
             o = dict(op)
             o["entry"] = "Image.write"
             out.append(o)
-        if op.get("entry") in ("read_image", "meta_bytes", "meta_reader", "Grid.from_file"):
+        if op.get("entry") in ("read_image", "meta_bytes", "meta_reader", "Grid.from_file", "from_sitk"):
             o = dict(op)
             o["entry"] = "Image.read"
             out.append(o)
